@@ -176,11 +176,16 @@ pub fn c14_lists(s: &Setting, th: bool) -> Vec<Vec<Param>> {
         let base: Vec<Param> = (0..l).map(|i| p(s.ws[i].max(4), 2.min(s.heights[i]))).collect();
         for i in 0..l {
             if let Some(h) = next_height(s.heights[i]) {
-                if h <= 10 {
-                    let mut x = base.clone();
-                    x[i] = p(s.ws[i].max(4), h);
-                    lists.push(x);
-                }
+                // (heights above 10 are only probed through the lifetime query, see c14_tasks)
+                let mut x = base.clone();
+                x[i] = p(s.ws[i].max(4), h);
+                lists.push(x);
+            }
+            // the per-level maximum itself where it is too tall to generate: must be accepted
+            if s.heights[i] > 10 {
+                let mut x = base.clone();
+                x[i] = p(s.ws[i].max(4), s.heights[i]);
+                lists.push(x);
             }
             if let Some(w) = prev_w(s.ws[i]) {
                 let mut x = base.clone();
@@ -202,11 +207,9 @@ pub fn c14_lists(s: &Setting, th: bool) -> Vec<Vec<Param>> {
                 lists.push(x);
             }
             if let Some(h) = next_height(s.heights[i]) {
-                if h <= 10 {
-                    let mut x = maxed.clone();
-                    x[i] = p(s.ws[i], h);
-                    lists.push(x);
-                }
+                let mut x = maxed.clone();
+                x[i] = p(s.ws[i], h);
+                lists.push(x);
             }
         }
     }
@@ -224,8 +227,17 @@ pub fn c14_tasks(ctx_seed: u64, s: &Setting, th: bool) -> Vec<(Task, Where, Vec<
         let wh = classify(s, &m, &l);
         let seed = hex::encode(det_bytes(ctx_seed, &format!("c14:{:?}", l), hid.n()));
         let hs = m.heights(&l);
-        let total: u64 = 1u64 << hs.iter().sum::<u32>();
+        let total: u64 = 1u64.checked_shl(hs.iter().sum::<u32>()).unwrap_or(u64::MAX);
         let h0 = hs[0];
+        if hs.iter().any(|h| *h > 10) {
+            // too tall to generate: the lifetime query alone (no tree is computed) at the first, second and
+            // last counter of the 64-bit range the shape admits
+            let last = if hs.iter().sum::<u32>() >= 64 { u64::MAX } else { total - 1 };
+            for c in [0u64, 1, last] {
+                out.push((Task::Lifetime { hid, params: l.clone(), seed: seed.clone(), counter: c }, wh, l.clone()));
+            }
+            continue;
+        }
         let aux_full = m.aux_layout(h0, 1 << 20).1;
         out.push((Task::Keygen { hid, params: l.clone(), seed: seed.clone(), aux_len: None }, wh, l.clone()));
         out.push((Task::Keygen { hid, params: l.clone(), seed: seed.clone(), aux_len: Some(aux_full + 5) }, wh, l.clone()));
@@ -253,6 +265,7 @@ pub fn c14_judge(s: &Setting, task: &Task, wh: Where, probe: &Value, default: &V
         Task::Keygen { aux_len: Some(_), .. } => "keygen+aux",
         Task::Keygen { .. } => "keygen",
         Task::SignAt { .. } => "sign",
+        Task::Lifetime { .. } => "lifetime",
         _ => "other",
     };
     if let Some(site) = res.strip_prefix("panic:") {
@@ -269,6 +282,13 @@ pub fn c14_judge(s: &Setting, task: &Task, wh: Where, probe: &Value, default: &V
             if res == "ok" && (probe["sk"] != json!(hex::encode(&sk)) || probe["pk"] != json!(hex::encode(&pk))) {
                 v.push(Viol::new(format!("C14:differs-from-model:keygen:{}", lbl), format!("keygen under {} differs from the model's key pair", s.label())));
             }
+        }
+    }
+    if let (Where::Inside, Task::Lifetime { hid, params, counter, .. }) = (wh, task) {
+        let m = Model::new(*hid);
+        let want = (Model::total_leaves(&m.heights(params)) - *counter as u128).min(u64::MAX as u128) as u64;
+        if res == "ok" && probe["lifetime"] != json!(format!("ok:{}", want)) {
+            v.push(Viol::new(format!("C14:differs-from-model:lifetime:{}", lbl), format!("get_lifetime under {} reports {} for {:?} at counter {}, the model {}", s.label(), probe["lifetime"], params, counter, want)));
         }
     }
     match wh {
@@ -407,7 +427,7 @@ pub fn run_c14(ctx: &Ctx) -> (&'static str, Map<String, Value>) {
         }
     }
     ctx.assume("'inside the limits' is read per level as documented (level i: height <= HBS_LMS_TREE_HEIGHTS[i], W >= HBS_LMS_WINTERNITZ_PARAMETERS[i]); lists inside the global extrema but outside a per-level entry may be refused or work correctly; lists outside every reading must be refused");
-    ctx.assume("tree heights > 10 are never generated: 'one height above the maximum' is only exercised where that height is <= 10");
+    ctx.assume("tree heights > 10 are never generated: parameter lists containing such a height (the per-level maximum itself, or one height above it) are exercised through the lifetime query on crafted key bytes only");
     let mut m = Map::new();
     m.insert("evaluations".into(), json!(evals));
     m.insert("distinct_nontrivial".into(), json!(evals));
@@ -452,9 +472,11 @@ pub fn c15_judge(s: &Setting, task: &Task, r: &Value) -> Vec<Viol> {
         if *reject {
             if res != "err" {
                 v.push(Viol::new("C15:signature-despite-reject", "sign_mut returned a signature although the callback reported failure"));
+                v.push(Viol::new("C04:signature-despite-reject:sign_mut", "sign_mut returned a signature although the callback reported failure"));
             }
             if cbs.len() != 1 || cbs[0] != succ {
                 v.push(Viol::new("C15:callback-protocol-on-reject", format!("{} callback invocations on the rejecting path", cbs.len())));
+                v.push(Viol::new("C04:callback-protocol-on-reject:sign_mut", format!("sign_mut: {} callback invocations / wrong successor on the rejecting path", cbs.len())));
             }
             if after.len() != before.len() || after[..after.len() - n] != before[..before.len() - n] {
                 v.push(Viol::new("C15:touched-outside-trailer:on-reject", "bytes before the last n bytes of the message were changed on the path where the callback rejects"));
@@ -466,15 +488,31 @@ pub fn c15_judge(s: &Setting, task: &Task, r: &Value) -> Vec<Viol> {
             let pk = hex::decode(r["pk"].as_str().unwrap_or("")).unwrap_or_default();
             if r["verify"].as_array().map(|a| a.iter().any(|x| x.as_str() != Some("ok"))).unwrap_or(true) {
                 v.push(Viol::new(format!("C15:ordinary-verifier-rejects:{}", nk), format!("the ordinary verifier does not accept the fast-verify signature for the returned message: {}", r["verify"])));
+                v.push(Viol::new("C01:sign_mut-signature-rejected", format!("a signature released by sign_mut (counter {}, {}) is not accepted by the library's verifier for the returned message: {}", counter, hid.name(), r["verify"])));
             }
             if m.hss_verify(&after, &sig, &pk).is_err() {
                 v.push(Viol::new(format!("C15:reference-verifier-rejects:{}", nk), "the reference RFC 8554 verifier does not accept the fast-verify signature"));
+                v.push(Viol::new("C07:sign_mut-reference-verifier-rejects", "the reference RFC 8554 verifier does not accept the signature released by sign_mut"));
+            }
+            // the released signature is THE signature of (key bytes, returned message): model and ordinary entry point
+            if let Ok((msig, _)) = m.hss_sign(&blob, &after) {
+                if msig != sig {
+                    v.push(Viol::new("C07:sign_mut-not-exact", format!("the signature released by sign_mut (counter {}, {}) is not the RFC 8554 signature of the returned message with the seed-derived randomizers", counter, hid.name())));
+                }
+            }
+            if r["sign_same"].as_str().map(|x| x != hex::encode(&sig)).unwrap_or(false) {
+                v.push(Viol::new("C09:entry-points-disagree:sign_mut", format!("sign_mut and sign return different signatures for identical key bytes (counter {}, {}) and the identical (returned) message", counter, hid.name())));
+            }
+            if r["succ_same"].as_str().map(|x| cbs.last().map(|c| hex::encode(c) != x).unwrap_or(true)).unwrap_or(false) {
+                v.push(Viol::new("C09:entry-points-disagree:sign_mut-successor", "sign_mut and sign hand different successor keys to the callback for identical key bytes"));
             }
             if after.len() != before.len() || after[..after.len() - n] != before[..before.len() - n] {
                 v.push(Viol::new("C15:touched-outside-trailer", "bytes before the last n bytes of the message were changed"));
             }
             if cbs.len() != 1 || cbs[0] != succ {
                 v.push(Viol::new("C15:callback-protocol", format!("{} callback invocations / wrong successor (exactly one leaf must be consumed)", cbs.len())));
+                v.push(Viol::new("C04:callback-protocol:sign_mut", format!("sign_mut released a signature with {} callback invocations / a wrong successor", cbs.len())));
+                v.push(Viol::new("C05:successor:sign_mut", format!("sign_mut at counter {} handed over a key that is not the successor (the wiped key after the last leaf)", counter)));
             }
             // the signature uses exactly the leaf the counter selects
             if let Ok(ph) = m.parse_hss_sig(&sig) {
@@ -490,6 +528,9 @@ pub fn c15_judge(s: &Setting, task: &Task, r: &Value) -> Vec<Viol> {
         }
         if !cbs.is_empty() {
             v.push(Viol::new("C15:leaf-consumed-on-refusal", "a refused message consumed a leaf (callback invoked)"));
+            if res == "err" {
+                v.push(Viol::new("C04:callback-without-signature:sign_mut", "sign_mut invoked the key-update callback although it refused the message and returned no signature"));
+            }
         }
         if after != before {
             v.push(Viol::new("C15:message-modified-on-refusal", "a refused message was modified"));
@@ -786,6 +827,39 @@ pub fn run_c15(ctx: &Ctx) -> (&'static str, Map<String, Value>) {
     m.insert("rule".into(), json!("(a) every thread schedule (shuttle DFS, no iteration cap) of one complete sign_mut call for T in {2,3} (4 thorough) on three hash/W configurations, same oracle per schedule, non-vacuity = T! distinct delivery orders; (b) fast_verify builds for several HBS_LMS_THREADS x HBS_LMS_MAX_HASH_OPTIMIZATIONS settings executing the task lattice hashes x W x {whole [2,2] lifetime, [5] first/last} x message lengths {0,1,n-1,n,n+1,n+2,64,3072} x non-zero trailer at each position x callback accept/reject x aux on/off"));
     m.insert("exhaustive".into(), json!(true));
     ("model_checking", m)
+}
+
+/// The sign_mut entry point (fast_verify build, one worker thread: deterministic) under the oracles of
+/// the entry-point-independent properties C01 / C04 / C05 / C07 / C09: the complete C15 task lattice is
+/// executed in the probe and judged; the context keeps the classes of its own property.
+pub fn fv_cross(ctx: &Ctx) -> Result<(u64, String), String> {
+    let th = ctx.tier.thorough();
+    let s = Setting { levels: 8, heights: vec![25; 8], ws: vec![1; 8], fv: Some((1, 10)) };
+    let tasks = c15_tasks(ctx.seed, th);
+    let bin = build_probe(&s, "fv-0")?;
+    let (lim, res) = run_probe(&bin, &tasks)?;
+    if lim["fast_verify"].as_bool() != Some(true) {
+        return Err("probe built without fast_verify".into());
+    }
+    for (i, task) in tasks.iter().enumerate() {
+        for x in c15_judge(&s, task, &res[i]) {
+            ctx.report(&x, || json!({"engine":"c15fv","setting":s,"task":task,"seed":ctx.seed,"thorough":th}));
+        }
+    }
+    ctx.count("sign_mut-entry-point-tasks", tasks.len() as u64);
+    Ok((tasks.len() as u64, format!("hbs_lms::sign_mut in a fast_verify build ({}) over the C15 task lattice ({} tasks), judged by this property's oracle", s.label(), tasks.len())))
+}
+
+pub fn fv_cross_or_exit(ctx: &Ctx, m: &mut Map<String, Value>) {
+    match fv_cross(ctx) {
+        Ok((n, d)) => {
+            m.insert("sign_mut_entry_point".into(), json!({"tasks": n, "rule": d}));
+        }
+        Err(e) => {
+            eprintln!("MACHINERY: {}", e);
+            std::process::exit(2);
+        }
+    }
 }
 
 /// builds every variant the quick tiers of C14 / C15 need (setup time), in parallel
